@@ -192,15 +192,21 @@ Theorem C11_literal_ampm : forall h hs mer pm sep m,
     = whole_line_time DAY1 default_config (hs ++ sep ++ mer) (wall_of (hour24 h pm) 0 0).
 Proof. exact literal_ampm. Qed.
 
-(* KNOWN deviation from the statement's 'H:MM[:SS] with optional am/pm': the two regexes with
-   seconds have no meridiem group, so 'H:MM:SS pm' is read as H:MM:SS (am); 12:xx am is 12:xx
-   (left out by the statement) *)
-Theorem C11_meridiem_with_seconds_refuted :
-  literal_tokens DAY1 default_config (s "1:20:30 pm")
-    = Some [(0%N, 7%N, Some (TTime (instant_of DAY1 (wall_of 1 20 30) 0) {| tz_name := s "UTC"; tz_off := 0 |}))] /\
-  option_map fst (run_line default_config (s "1:20:30 pm")) = Some (s "01:20:30 UTC") /\
+(* ... and every 1-11 am/pm form with seconds: H:MM:SS pm, H:MM:SSpm, HH:MM:SS pm (minutes 0, 7,
+   30, 59; all seconds).  Was a defect (`1:20:30 pm` read as 01:20:30), repaired in /repo 6e1968b *)
+Theorem C11_literal_hms_ampm : forall h hs mer pm sep m sec,
+  1 <= h <= 11 -> In hs (hour_spellings h) -> In (mer, pm) meridiems -> In sep seps ->
+  In m some_minutes -> 0 <= sec < 60 ->
+  literal_tokens DAY1 default_config (text_hms hs m sec ++ sep ++ mer)
+    = whole_line_time DAY1 default_config (text_hms hs m sec ++ sep ++ mer) (wall_of (hour24 h pm) m sec).
+Proof. exact literal_hms_ampm. Qed.
+
+Theorem C11_meridiem_with_seconds_examples :
+  option_map fst (run_line default_config (s "1:20:30 pm")) = Some (s "13:20:30 UTC") /\
+  option_map fst (run_line default_config (s "11:59:59 PM + 1 second")) = Some (s "00:00:00 UTC") /\
+  option_map fst (run_line default_config (s "1:20:30 pm EST to CET")) = Some (s "19:20:30 CET") /\
   option_map fst (run_line default_config (s "12:30 am")) = Some (s "12:30:00 UTC").
-Proof. exact meridiem_with_seconds_refuted. Qed.
+Proof. exact meridiem_with_seconds_examples. Qed.
 
 (* ---- finite table (regenerated from config.json on every run): every zone name of the table
    that [A-Z]{2,4} can express and that is not a currency code (174 of 191), through the whole
@@ -305,7 +311,8 @@ Print Assumptions C11_literal_token.
 Print Assumptions C11_literal_hm.
 Print Assumptions C11_literal_hms.
 Print Assumptions C11_literal_ampm.
-Print Assumptions C11_meridiem_with_seconds_refuted.
+Print Assumptions C11_literal_hms_ampm.
+Print Assumptions C11_meridiem_with_seconds_examples.
 Print Assumptions C11_zone_table.
 Print Assumptions C11_zone_table_size.
 Print Assumptions C11_gmt_forms.
